@@ -1,0 +1,26 @@
+//go:build verif
+
+package smtp
+
+import (
+	"net"
+	"regexp"
+
+	"github.com/rs/zerolog"
+)
+
+// Hooks for the verification harness in /verif (compiled only with -tags verif).
+
+// VerifServe runs one SMTP session on conn and returns when the session has ended.
+func (s *Server) VerifServe(id int, conn net.Conn) {
+	s.startSession(id, conn, zerolog.Nop())
+}
+
+// VerifFromRegex is the expression parseMailFromCmd matches the MAIL argument with.
+func VerifFromRegex() *regexp.Regexp { return fromRegex }
+
+// VerifParseArgs runs parseArgs on the ESMTP parameter string of a MAIL command.
+func VerifParseArgs(arg string) (map[string]string, bool) {
+	s := &Session{logger: zerolog.Nop()}
+	return s.parseArgs(arg)
+}
